@@ -14,6 +14,8 @@ COQ = os.path.join(VERIF, "coq")
 BUILD = os.path.join(VERIF, "_build")
 OCAML = os.path.join(BUILD, "ocaml")
 DRIVER = os.path.join(OCAML, "driver")
+OCAMLX = os.path.join(BUILD, "ocamlx")
+DRIVERX = os.path.join(OCAMLX, "driver")   # extended driver of the schema properties (Extract/DriverSchema.v)
 PY = "/venv/bin/python"
 
 FORBIDDEN = re.compile(
@@ -31,6 +33,7 @@ class BuildResult:
         self.assumptions = {}    # theorem -> text printed by Print Assumptions
         self.theorems = []
         self.wall = 0.0
+        self.driverx_ok = False  # extended driver available (only attempted when asked for)
 
 
 def _run(cmd, cwd=None, timeout=1800, env=None):
@@ -68,7 +71,31 @@ def grep_forbidden():
     return bad
 
 
-def build(prop_file: str | None, clean: bool = False) -> BuildResult:
+def build_driverx(res: BuildResult):
+    """The extended driver: its cone contains proofs about the generated schema patterns, so it is built after and
+    apart from the core driver; failure here never takes the core model down."""
+    rc, out = _run(["make", "-j16", "Extract/ExtractSchema.vo"], cwd=COQ, timeout=3000)
+    res.log += out + "\n"
+    if rc != 0:
+        return
+    os.makedirs(OCAMLX, exist_ok=True)
+    need = not os.path.exists(DRIVERX)
+    ml = open(os.path.join(COQ, "modelx.ml")).read() + "\nlet run = runx\n"
+    mli = open(os.path.join(COQ, "modelx.mli")).read()
+    for name, text in (("model.ml", ml), ("model.mli", mli), ("driver.ml", open(os.path.join(VERIF, "ocaml", "driver.ml")).read())):
+        dst = os.path.join(OCAMLX, name)
+        if not os.path.exists(dst) or open(dst).read() != text:
+            open(dst, "w").write(text)
+            need = True
+    if need:
+        rc, out = _run(["ocamlfind", "ocamlopt", "-w", "-a", "model.mli", "model.ml", "driver.ml", "-o", "driver"], cwd=OCAMLX, timeout=900)
+        res.log += out + "\n"
+        if rc != 0:
+            return
+    res.driverx_ok = True
+
+
+def build(prop_file: str | None, clean: bool = False, extended: bool = False) -> BuildResult:
     """prop_file e.g. 'Props/C07' (without .v).  Always (re)builds the extraction + driver too."""
     res = BuildResult()
     t0 = time.time()
@@ -136,6 +163,8 @@ def build(prop_file: str | None, clean: bool = False) -> BuildResult:
                 res.ok = False
                 res.stage = "driver-build"
                 return res
+        if extended:
+            build_driverx(res)
         # 4. the property's proof cone
         if prop_file:
             target = prop_file + ".vo"
